@@ -299,6 +299,44 @@ func checkMain(args []string) int {
 		}
 		fmt.Printf("VIOLATION property=%s replay=%s obligation=%s status=%s%s\n", id, path, s.Ob, s.Status, suffix)
 	}
+	// bounded stand-ins for functions outside the verifier's reach: run on the real code, labelled
+	// bounded, never counted among the discharged obligations
+	var boundedEv []map[string]any
+	for _, bp := range cfg.Bounded {
+		src, err := os.ReadFile(filepath.Join(verifRoot, "bounded", id, bp.File))
+		if err != nil {
+			fmt.Fprintln(os.Stderr, "govc: bounded part", bp.Name, "missing:", err)
+			return 2
+		}
+		t0 := time.Now()
+		out, failedRun, rerr := runOverlayTestV(filepath.Join(repoRoot, bp.PkgDir), "TestGovcBounded", string(src), "govc_bounded_test.go")
+		evals := 0
+		if i := strings.Index(out, "GOVC-BOUNDED evaluations="); i >= 0 {
+			fmt.Sscanf(out[i:], "GOVC-BOUNDED evaluations=%d", &evals)
+		}
+		be := map[string]any{"name": bp.Name, "stands_in_for": bp.Func, "bound": bp.Bound, "level": "bounded (not a proof)", "evaluations": evals,
+			"wall_s": round3(time.Since(t0).Seconds()), "passed": !failedRun && rerr == nil}
+		boundedEv = append(boundedEv, be)
+		ob := bp.Func + "#bounded"
+		if rerr != nil {
+			fmt.Fprintln(os.Stderr, "govc: bounded part", bp.Name, "could not run:", rerr, tail(out, 600))
+			return 2
+		}
+		if failedRun {
+			if f, ok := known[ob]; ok {
+				fmt.Printf("KNOWN-FINDING: property=%s %s %s\n", id, ob, f.text)
+				continue
+			}
+			violations++
+			_ = os.MkdirAll(replayDir, 0o755)
+			path := filepath.Join(replayDir, sanitizeFile(ob)+".json")
+			writeJSON(path, map[string]any{"property": id, "obligation": ob, "status": "refuted by bounded search on the real code", "bound": bp.Bound,
+				"test_source": string(src), "test_name": "TestGovcBounded", "package_dir": filepath.Join(repoRoot, bp.PkgDir), "replay_output": tail(out, 4000), "reproduced": true})
+			fmt.Printf("VIOLATION property=%s replay=%s obligation=%s status=bounded-counterexample\n", id, path, ob)
+		} else {
+			fmt.Printf("bounded: %s passed (%d cases; %s) - not a proof\n", bp.Name, evals, bp.Bound)
+		}
+	}
 	// evidence
 	var trusted []string
 	for k := range r.prog.Trusted {
@@ -340,6 +378,7 @@ func checkMain(args []string) int {
 			"partial_scope":            cfg.Scope,
 			"mirrored_packages":        r.mirrored,
 			"notes":                    dedupe(r.notes),
+			"bounded_parts":            boundedEv,
 		},
 		"assumptions": assumptions,
 		"wall_s":      round3(r.wall),
